@@ -76,6 +76,14 @@ Theorem C01_restore_tree : forall {B} (zero : B) chunks (items : list (@item B))
 Proof. exact (fun B zero => restore_tree zero). Qed.
 Print Assumptions C01_restore_tree.
 
+(* restoring the same snapshot again into the restored tree changes nothing (idempotence, every path) *)
+Theorem C01_restore_tree_idempotent : forall {B} (zero : B) chunks (items : list (@item B)) (files : list (list B)) (f : @fs B),
+  NoDup (map (fun it : item => fst (fst it)) items) ->
+  Forall2 (fun (it : item) file => forall pre, restore_file zero chunks (snd (fst it)) (snd it) pre = file) items files ->
+  forall q, restore_all zero chunks items (restore_all zero chunks items f) q = restore_all zero chunks items f q.
+Proof. exact (fun B zero => restore_tree_idempotent zero). Qed.
+Print Assumptions C01_restore_tree_idempotent.
+
 (* chunk table / de-duplicated path arguments: first-occurrence order, every element once, and a
    ref's index leads back to its digest *)
 Theorem C01_table_spec : forall {D} (deqb : D -> D -> bool), (forall x y, deqb x y = true <-> x = y) ->
